@@ -142,6 +142,9 @@ impl ErrorMessages {
                 continue;
             };
             let Some(source_path) = sources.source_ids.get(&span.source_id) else {
+                // A span of a source that is not part of this tree (e.g. the
+                // embedded std.prql) cannot be interpreted by the caller.
+                e.span = None;
                 continue;
             };
 
